@@ -1,4 +1,5 @@
 import PikaVerif.Lemmas.Snd
+import PikaVerif.Lemmas.Shared
 /-!
 # C03 — sender adaptors deliver exactly one, correct completion signal
 
@@ -120,5 +121,81 @@ example : run Cfg.fixed (.wa (.just [1]) [.stop, .err 3]) =
     { log := [.stopped], aborted := false, uaf := false } := by decide
 example : run Cfg.fixed (.le (.add 10) (.thn (.thr 5) (.just [1])) (.es .arg)) =
     { log := [.value [15]], aborted := false, uaf := false } := by decide
+
+/-! ## Stage 2 — the shared state of split / split_tuple / ensure_started under concurrency
+
+`PikaVerif.Shared.step` is an acceptor over the hook events of `set_predecessor_done` /
+`add_continuation` (flag, spinlock, continuation container) for any number of threads and
+consumers; the theorems hold for every accepted event log (every interleaving).  The complete
+statement "every started consumer receives exactly the stored completion, once" is
+`C03_split_each_consumer_once` below in comment form; what is proved are the lemmas that carry
+its race argument (`_partial`), see notes/C03.md. -/
+
+open PikaVerif.Shared in
+def SReach (s : Shared.St) : Prop :=
+  ∃ kind ss log, runLog Shared.step (Shared.init kind ss) log = some s
+
+/-- The spinlock of the shared state is held by at most one thread, and never by a consumer
+    while the predecessor's thread is inside its (empty) critical section. -/
+theorem C03_shared_mutex (s : Shared.St) (hr : SReach s) (t u : Nat)
+    (ht : Shared.cHolds (s.pc t) = true) (hu : Shared.cHolds (s.pc u) = true) :
+    t = u ∧ s.pst ≠ .locked := by
+  obtain ⟨kind, ss, log, hl⟩ := hr
+  have hi := Shared.inv_of_accepted hl
+  have h1 := hi.cLock t ht
+  have h2 := hi.cLock u hu
+  refine ⟨by rw [h1] at h2; exact Option.some.inj h2, fun hp => ?_⟩
+  have h3 := hi.pLock hp
+  have h4 := (hi.prodActive (by rw [hp]; simp) (by rw [hp]; simp))
+  rw [h1] at h3
+  have : s.ptid = t := (Option.some.inj h3).symm
+  rw [this] at h4
+  cases hpc : s.pc t <;> simp [hpc, Shared.cHolds, Shared.isProd] at ht h4
+
+/-- `predecessor_done` is set exactly from the moment the predecessor's thread passed `sh.done`. -/
+theorem C03_shared_flag (s : Shared.St) (hr : SReach s) : s.done = true ↔ 2 ≤ s.pst.rank := by
+  obtain ⟨kind, ss, log, hl⟩ := hr
+  exact (Shared.inv_of_accepted hl).doneIff
+
+/-- **The race window.**  A consumer that has stored its continuation and still holds the lock
+    implies that the predecessor's thread has not yet entered its critical section; hence the
+    predecessor's thread finds every stored continuation when it looks (after its
+    lock/unlock): no continuation is stored after that point. -/
+theorem C03_shared_push_before_lock_partial (s : Shared.St) (hr : SReach s) (t k : Nat)
+    (hp : s.pc t = .pushed k) : s.pst.rank ≤ 2 := by
+  obtain ⟨kind, ss, log, hl⟩ := hr
+  exact (Shared.inv_of_accepted hl).pushedEarly t k hp
+
+/-- **No lost continuation.**  When the predecessor's receiver call has finished, every stored
+    continuation has been run (the container is empty), and while it is still running them the
+    container is not empty. -/
+theorem C03_shared_no_lost_continuation_partial (s : Shared.St) (hr : SReach s) :
+    (s.pst = .finished → s.conts = []) ∧ (s.pst = .running → s.conts ≠ []) := by
+  obtain ⟨kind, ss, log, hl⟩ := hr
+  exact ⟨(Shared.inv_of_accepted hl).finishedEmpty, (Shared.inv_of_accepted hl).runningNonempty⟩
+
+/- Full statement (not proved; the ghost-counter part of the invariant was cut for time):
+   theorem C03_split_each_consumer_once (s) (hr : SReach s) (hq : ∀ t, s.pc t = .idle ∨ s.pc t = .fin)
+     (hs : s.storesStopped = true) (hc : s.sig = some c ∨ s.pending = some c) :
+     ∀ k, s.phase k ≠ .unused → s.got k = 1 ∧ s.gotSig k = some (sigFor s.kind k c) -/
+
+/-- One consumer stores its continuation, then the predecessor completes with stopped: in the
+    pinned tree the predecessor's thread aborts while running the continuation, the consumer
+    never receives a signal. -/
+def splitStoppedLog : List Shared.Ev :=
+  [.invConsume 1 0, .seen1 1 false, .slAcq 1, .seen2 1 false, .slRel 1, .ret 1,
+   .invComplete 0 ⟨1, 0⟩, .fire 0 ⟨1, 0⟩, .flag 0 0, .slAcq 0, .slRel 0, .run 0 1, .abort 0]
+
+theorem C03_shared_stopped_counterexample :
+    (runLog Shared.step (Shared.init .split false) splitStoppedLog).map
+      (fun s => (s.aborted, s.got 0)) = some (true, 0) := by decide
+
+/-- The repaired tree on the same schedule: the consumer receives `stopped`, once. -/
+example : (runLog Shared.step (Shared.init .split true)
+    [.invConsume 1 0, .seen1 1 false, .slAcq 1, .seen2 1 false, .slRel 1, .ret 1,
+     .invComplete 0 ⟨1, 0⟩, .fire 0 ⟨1, 0⟩, .flag 0 1, .slAcq 0, .slRel 0, .run 0 1,
+     .rcv 0 0 .stopped, .ret 0, .tdone 0, .tdone 1]).map
+      (fun s => (s.aborted, s.got 0, s.gotSig 0, s.pst)) =
+    some (false, 1, some .stopped, .finished) := by decide
 
 end PikaVerif.C03
